@@ -122,13 +122,14 @@ def run_conserve(mutate=None):
     return dict(obls=obls, paths=n, sources=[L.info()], consistent=True)
 
 
-def run_density(mutate=None):
+def run_density(mutate=None, prefixes=("C01.",)):
     """update_mu_boundary: after the call mu_boundary[b] = -(1/L_t) sum_{s != t} I_s(time) on the edges of terminal t, untouched elsewhere,
     cache consistent; with balanced currents this is I_t / L_t, so the total entering through t is I_t (J_scale applied in __init__)"""
     L = uc.load(mutate, vcm.VC())
     Solver = L["TDGLSolver"]
 
     def body():
+        sym.ctx().record_prefixes = tuple(prefixes)
         R = z3.Real
         nterm = 3
         names = ["a", "b", "c"][:nterm]
@@ -168,7 +169,15 @@ def run_density(mutate=None):
         for i, t1 in enumerate(terms):
             for t2 in terms[i + 1:]:
                 assume(SB(z3.Not(z3.And(t1.memf(b.e), t2.memf(b.e)))))
-        s.update_mu_boundary(time)
+        # C19: a problem is refused BEFORE the run starts; the per-step boundary update runs after the output was created, so it answers for every
+        # current assignment the accepted function of time hands out (balanced or not) and never raises a validation error
+        s.options = type("Opts", (), {"solve_time": SR(R("solve_time")), "current_units": "CUR"})()
+        try:
+            s.update_mu_boundary(time)
+        except ValueError as e_:
+            check("C19.rejection_only_before_the_run.the_per_step_boundary_update_does_not_reject", False, note=str(e_)[:200])
+            return
+        check("C19.rejection_only_before_the_run.the_per_step_boundary_update_does_not_reject", True)
         for t in terms:
             others = sum((I[nm] for nm in names if nm != t.name), SR(0))
             want = -(others / t.length)
